@@ -49,6 +49,10 @@ type hCase struct {
 	Salt    uint32   `json:"salt"`
 	FaultPc int      `json:"fault_percent"`
 	Req     hReq     `json:"request"`
+	// the gateway runs with the automatic plan cache, and has already answered an ordinary request
+	// (no hash) when the case's request arrives: what it answers must not depend on that history
+	Cache bool `json:"automatic_plan_cache,omitempty"`
+	Warm  bool `json:"warm_up_request,omitempty"`
 }
 
 type countingExec struct {
@@ -265,6 +269,43 @@ func opNames(body interface{}, names map[string]string) []string {
 	return out
 }
 
+// hasHash: the operation names a persisted query itself
+func hasHash(op interface{}) bool {
+	m, ok := op.(map[string]interface{})
+	if !ok {
+		return false
+	}
+	ext, _ := m["extensions"].(map[string]interface{})
+	pq, _ := ext["persistedQuery"].(map[string]interface{})
+	_, has := pq["sha256Hash"]
+	return has
+}
+
+// withoutComputedHash drops, from a copy of a response body, the persistedQuery block the automatic
+// plan cache adds to the answer of an operation that named no hash (the HTTP model is about the
+// handler: it echoes the hashes the client sent)
+func withoutComputedHash(body interface{}, ops []interface{}) interface{} {
+	body = normJSON(body)
+	strip := func(entry interface{}, op interface{}) {
+		if m, ok := entry.(map[string]interface{}); ok && !hasHash(op) {
+			delete(m, "extensions")
+		}
+	}
+	switch b := body.(type) {
+	case []interface{}:
+		for i, e := range b {
+			if i < len(ops) {
+				strip(e, ops[i])
+			}
+		}
+	case map[string]interface{}:
+		if len(ops) == 1 {
+			strip(b, ops[0])
+		}
+	}
+	return body
+}
+
 func (c *CoqFile) hOutcome(single hObs) string {
 	m, _ := single.Body.(map[string]interface{})
 	if single.Status == 400 || single.Status == 422 || m == nil {
@@ -348,12 +389,27 @@ func runHTTP(cfg *runCfg, prop string) error {
 		if cs == nil {
 			g := &fedGen{r: r, MultiHomePct: 20}
 			cs = &hCase{Fed: g.Spec(), Salt: r.Uint32(), FaultPc: []int{0, 0, 0, 25}[r.Intn(4)]}
+			if r.Intn(3) == 0 {
+				cs.Cache = true
+				cs.Warm = r.Intn(2) == 0
+			}
 		}
 		st := genStore(rand.New(rand.NewSource(int64(cs.Salt))), cs.Fed, false)
 		ex := &countingExec{inner: &gateway.ParallelExecutor{}, names: map[string]int{}}
-		fed, err := NewFed(cs.Fed, st, rand.New(rand.NewSource(int64(cs.Salt))), gateway.WithExecutor(ex))
+		hopts := []gateway.Option{gateway.WithExecutor(ex)}
+		if cs.Cache {
+			hopts = append(hopts, gateway.WithAutomaticQueryPlanCache())
+			doc.Dist["with-automatic-plan-cache"]++
+		}
+		fed, err := NewFed(cs.Fed, st, rand.New(rand.NewSource(int64(cs.Salt))), hopts...)
 		if err != nil {
 			return fmt.Errorf("federation %d does not build: %v", i, err)
+		}
+		if cs.Warm {
+			// an ordinary request without a hash, answered before anything else
+			wr := &hReq{Method: http.MethodPost, CType: "application/json", Body: map[string]interface{}{"query": "query Warm { hello }", "operationName": "Warm"}}
+			_ = doHTTP(fed, ex, wr, []string{"Warm"})
+			doc.Dist["with-warm-up-request"]++
 		}
 		fed.Ctl.Fault = func(c *Call) string { return faultFor(cs.Salt, cs.FaultPc, c) }
 		names := map[string]string{} // query text -> operation name
@@ -378,6 +434,9 @@ func runHTTP(cfg *runCfg, prop string) error {
 				k := 1 + r.Intn(4)
 				if r.Intn(15) == 0 {
 					k = 0
+				} else if r.Intn(8) == 0 {
+					k = 11 + r.Intn(6) // more operations than any fixed-size buffer of ten holds
+					doc.Dist["batch:more-than-ten"]++
 				}
 				ops := []interface{}{}
 				for j := 0; j < k; j++ {
@@ -477,6 +536,24 @@ func runHTTP(cfg *runCfg, prop string) error {
 				rq.CType = []string{"application/json", "application/json; charset=utf-8", "text/plain", "", "<none>"}[r.Intn(5)]
 			} else if rq.Method == http.MethodPost && !rq.Multipart && r.Intn(4) == 0 {
 				rq.CType = []string{"application/json; charset=utf-8", "text/plain", "", "<none>", "application/graphql", "text/html", " application/json", "application/json;charset=utf-8", "APPLICATION/JSON"}[r.Intn(9)]
+			}
+			if cs.Cache {
+				// with the plan cache on, a hash the client made up would name whatever query came first under
+				// it: the generated operations of these cases carry none
+				dropExt := func(o interface{}) {
+					if m, ok := o.(map[string]interface{}); ok {
+						delete(m, "extensions")
+					}
+				}
+				switch b := rq.Body.(type) {
+				case []interface{}:
+					for _, o := range b {
+						dropExt(o)
+					}
+				default:
+					dropExt(b)
+				}
+				delete(rq.Params, "extensions")
 			}
 			cs.Req = rq
 		} else {
@@ -586,8 +663,13 @@ func runHTTP(cfg *runCfg, prop string) error {
 			singleBodies = append(singleBodies, c.JSON(s.Body))
 		}
 		bodyObs := "None"
+		rawObs := "None"
 		if !obs.NotJS && obs.Panic == "" {
-			bodyObs = "(Some " + c.JSON(obs.Body) + ")"
+			rawObs = "(Some " + c.JSON(obs.Body) + ")"
+			bodyObs = rawObs
+			if cs.Cache {
+				bodyObs = "(Some " + c.JSON(withoutComputedHash(obs.Body, opList)) + ")"
+			}
 		}
 		ran := []string{}
 		for _, b := range obs.Ran {
@@ -599,7 +681,9 @@ func runHTTP(cfg *runCfg, prop string) error {
 		obsTerm := fmt.Sprintf("{| ob_panic := %s; ob_status := %d; ob_body := %s; ob_ran := [%s] |}", coqBool(obs.Panic != ""), obs.Status, bodyObs, strings.Join(ran, "; "))
 		oracle := "c15_holds " + reqTerm + " " + obsTerm
 		if prop == "C16" {
-			oracle = fmt.Sprintf("c16_holds [%s] %s", strings.Join(singleBodies, "; "), obsTerm)
+			// the batch against the single answers as they are, computed hashes included
+			rawTerm := fmt.Sprintf("{| ob_panic := %s; ob_status := %d; ob_body := %s; ob_ran := [%s] |}", coqBool(obs.Panic != ""), obs.Status, rawObs, strings.Join(ran, "; "))
+			oracle = fmt.Sprintf("c16_holds [%s] %s", strings.Join(singleBodies, "; "), rawTerm)
 		}
 		c.Printf("Eval vm_compute in (%d%%nat, model_agrees %s [%s] %s, %s).\n", id, reqTerm, strings.Join(outs, "; "), obsTerm, oracle)
 		key, _ := json.Marshal(cs)
